@@ -577,10 +577,34 @@ Fixpoint slot_attrs (i : nat) (ss : list slot) : list var :=
   end.
 Definition qmk (name : var) (dim : nat) (ss : list slot) (c : Q) (t : list (list qval * Q)) : dist qval QM :=
   @mk_dist qval QM name dim ss (slot_attrs 0 ss) c (tbl t poison).
+(* explicit attribute names: a callable attribute may be named like one of its own arguments
+   (scale = lambda scale: 1/scale): the keyword then names BOTH the attribute and the callable's argument;
+   the code assigns the raw value first and overwrites it with the evaluated callable *)
+Definition qmka (name : var) (dim : nat) (ss : list slot) (attrs : list var) (c : Q) (t : list (list qval * Q)) : dist qval QM :=
+  @mk_dist qval QM name dim ss attrs c (tbl t poison).
+(* Scope guard (open finding Distribution._condition|keyword-names-attribute-and-variable): the model binds
+   a keyword v in every callable that has v among its arguments and assigns it to the None attribute
+   named v -- nothing else.  The code as it stands ALSO assigns v to any other mutable attribute that
+   happens to be named v (destroying the value or callable it holds); with
+   fixes/C01_condition_attribute_collision.diff it does what the model does.  attrs_own says that no
+   such other attribute exists: an attribute named like a conditioning variable of its own
+   distribution is the None attribute itself or a callable with that variable among its arguments. *)
+Fixpoint attrs_own (cv : list var) (ss : list slot) (attrs : list var) : bool :=
+  match ss, attrs with
+  | s :: ss', a :: attrs' =>
+      (negb (mem a cv) ||
+       match s with SUnset v => Nat.eqb v a | SFn args => mem a args | SFixed => false end)
+      && attrs_own cv ss' attrs'
+  | _, _ => true
+  end.
+Definition slots_attrs_own (ss : list slot) (attrs : list var) : bool := attrs_own (cond_vars ss) ss attrs.
+
 Definition qD (d : dist qval QM) : dens qval QM := D d.
 Definition qL (d : dist qval QM) (data : qval) : dens qval QM := L d data.
 Definition fmk (name : var) (dim : nat) (ss : list slot) (t : list (list qval * float)) : dist qval FM :=
   @mk_dist qval FM name dim ss (slot_attrs 0 ss) 0%float (tbl t 999983%float).
+Definition fmka (name : var) (dim : nat) (ss : list slot) (attrs : list var) (t : list (list qval * float)) : dist qval FM :=
+  @mk_dist qval FM name dim ss attrs 0%float (tbl t 999983%float).
 Definition fD (d : dist qval FM) : dens qval FM := D d.
 Definition qdens := dens qval QM.
 Definition qobj := obj qval QM.
